@@ -9,6 +9,7 @@ import (
 	"encoding/json"
 	"flag"
 	"fmt"
+	"hash/crc32"
 	"os"
 	"strings"
 	"time"
@@ -44,6 +45,10 @@ type config struct {
 	// Shards > 1: the group has that many shards.  The spec's part layout then no longer maps to one table: flush steps
 	// flush every table, merge steps merge all file parts of every table, the layout is not compared; every answer is.
 	Shards      int    `json:"shards"`
+	// RuleIDSign names a tag ("a" or "b"): the group name is then chosen such that the ID the registry derives for that
+	// tag's index rule (CRC-32 of group + rule name) starts with the byte '-' or '+'.  IDs are opaque to users; the bytes
+	// of an ID are used as field names inside the inverted index.
+	RuleIDSign string `json:"ruleIdSign"`
 	Ballast     int    `json:"ballast"`
 	BallastMode string `json:"ballastMode"`
 }
@@ -153,7 +158,17 @@ func main() {
 	for n, b := range bs {
 		vlib.Progress(b.ID)
 		res.Behaviours++
-		m := mk(srv, cfg, fmt.Sprintf("vf%s-%d", tag, n), res)
+		group := fmt.Sprintf("vf%s-%d", tag, n)
+		if cfg.RuleIDSign != "" {
+			for k := 0; ; k++ {
+				g := fmt.Sprintf("%s-%d", group, k)
+				if c := crc32.ChecksumIEEE([]byte(g + "idx-" + cfg.RuleIDSign)); byte(c>>24) == '-' || byte(c>>24) == '+' {
+					group = g
+					break
+				}
+			}
+		}
+		m := mk(srv, cfg, group, res)
 		if err := m.setup(ctx); err != nil {
 			if strings.HasPrefix(err.Error(), "VIOLATION") {
 				res.Violate(b.ID, 0, "schema-setup-failed", "%v", err)
